@@ -20,6 +20,7 @@ func checkC09(p *Prog, r *Report) {
 	c09Clamps(p, r)
 	c09Reduk(p, r)
 	c09Root(p, r)
+	c09DayLength(p, r)
 	r.Note("not decided: finiteness and non-negativity of masses over whole growing seasons (multi-day state), phenology in calendar terms, anything about shipped parameter values")
 }
 
@@ -515,4 +516,93 @@ func c09Root(p *Prog, r *Report) {
 		}
 		r.Ob("WURZ", p.Pos(wurz.Pos), ok, fmt.Sprintf("WURZ = %s (int(4.5/Qrez/DZ) with the floored Qrez ⇒ WURZ ≤ WURM ≤ N)", wurz.Val))
 	}
+}
+
+// c09DayLength: the light-response terms of the assimilation routine divide by
+// the effective day length, which is exactly 0 around the winter solstice at
+// high latitudes.  The code lifts a zero to a small positive value; that lift
+// must come before every division by the day length (otherwise LAI, biomass
+// and N content turn NaN).
+func c09DayLength(p *Prog, r *Report) {
+	r.Rule("C09.R5", "zero day length is lifted before it is used as a divisor: in the assimilation routine the store that replaces an effective day length of 0 by a positive constant precedes every term that divides by the day length, and no division uses the unlifted value", 2)
+	x := walked(p, "hermes.radia")
+	if x == nil {
+		r.Ob("radia", "-", false, "hermes.radia not found")
+		return
+	}
+	var lift *Event
+	for _, e := range x.Events {
+		if e.Kind == "assign" && e.Local != nil && e.Local.Name() == "DLE" && len(e.Loops) == 0 {
+			if c, isC := e.Val.Const(); isC && c.Sign() > 0 && guardedBy(e, e.Old, token.EQL) {
+				lift = e
+			}
+		}
+	}
+	if lift == nil {
+		r.Ob("lift", "-", false, "no store lifting an effective day length of 0 to a positive value")
+		return
+	}
+	raw := lift.Old.single()
+	if raw == nil || len(raw.M) != 1 {
+		r.Ob("lift", p.Pos(lift.Pos), false, "the lifted value is not a plain variable")
+		return
+	}
+	rawAtom := raw.M[0].A
+	// the lift must not depend on anything but the day length itself being 0 (and the day being non-empty)
+	var extra []string
+	for _, g := range flattenGuards(lift.Guards) {
+		if g.Loop || isCmp(g, lift.Old, token.EQL) {
+			continue
+		}
+		if g.Kind == "cmp" && (g.Op == token.GTR || g.Op == token.GEQ) && len(g.P.T) == 1 {
+			continue // DL > 0
+		}
+		extra = append(extra, g.Key())
+	}
+	r.Ob("lift", p.Pos(lift.Pos), len(extra) == 0, fmt.Sprintf("effective day length 0 is replaced by %s; additional conditions: %v", lift.Val, extra))
+	divs, bad := 0, 0
+	first := "-"
+	for _, e := range x.Events {
+		if e.Kind != "assign" {
+			continue
+		}
+		usesRaw, usesAny := false, false
+		e.Val.walkAtoms(func(a *Atom) {})
+		for _, t := range e.Val.T {
+			for _, f := range t.M {
+				if f.E < 0 && (f.A == rawAtom) {
+					usesRaw = true
+				}
+				if f.E < 0 && (f.A == rawAtom || f.A.Root == "DLE") {
+					usesAny = true
+				}
+			}
+		}
+		// divisions nested inside function arguments (log(1 + …/DLE…))
+		e.Val.walkAtoms(func(a *Atom) {
+			for _, q := range a.Args {
+				for _, t := range q.T {
+					for _, f := range t.M {
+						if f.E < 0 && f.A == rawAtom {
+							usesRaw = true
+						}
+						if f.E < 0 && (f.A == rawAtom || f.A.Root == "DLE") {
+							usesAny = true
+						}
+					}
+				}
+			}
+		})
+		if !usesAny {
+			continue
+		}
+		divs++
+		if usesRaw || e.Seq < lift.Seq {
+			bad++
+			if first == "-" {
+				first = p.Pos(e.Pos)
+			}
+		}
+	}
+	r.Ob("divisions", first, divs > 0 && bad == 0, fmt.Sprintf("%d stores divide by the effective day length; %d of them can see the unlifted value (before the lift, or not through it)", divs, bad))
 }
